@@ -111,13 +111,14 @@ public:
                    );
 
         // the row pitch must be multiple 4 bytes
+        // (computed in 64 bits: width * bits_per_pixel of a crafted header does not fit an int)
         if( this->_info._bits_per_pixel < 8 )
         {
-            _pitch = static_cast<long>((( this->_info._width * this->_info._bits_per_pixel ) + 7 ) >> 3 );
+            _pitch = static_cast<long>((( static_cast<long>( this->_info._width ) * this->_info._bits_per_pixel ) + 7 ) >> 3 );
         }
         else
         {
-            _pitch = static_cast<long>( this->_info._width * (( this->_info._bits_per_pixel + 7 ) >> 3 ));
+            _pitch = static_cast<long>( static_cast<long>( this->_info._width ) * (( this->_info._bits_per_pixel + 7 ) >> 3 ));
         }
 
         _pitch = (_pitch + 3) & ~3;
